@@ -33,6 +33,11 @@ impl Task {
         }
     }
 
+    pub fn verif_reset(&mut self, state: TaskState, detached: bool) {
+        self.state = state;
+        self.detached = detached;
+    }
+
     pub fn verif_set(&mut self, woken: bool, token_available: bool, blocked_in_park: bool, waiter: Option<usize>) {
         self.woken = woken;
         self.park_state = ParkState { token_available, blocked_in_park };
